@@ -335,23 +335,23 @@ def _formatSystem(event: LogEvent) -> str:
 
     @return: A formatted string representing the "log_system" key.
     """
-    system = cast(Optional[str], event.get("log_system", None))
-    if system is None:
-        level = cast(Optional[NamedConstant], event.get("log_level", None))
-        if level is None:
-            levelName = "-"
-        else:
-            levelName = level.name
+    try:
+        system = cast(Optional[str], event.get("log_system", None))
+        if system is None:
+            level = cast(Optional[NamedConstant], event.get("log_level", None))
+            if level is None:
+                levelName = "-"
+            else:
+                levelName = level.name
 
-        system = "{namespace}#{level}".format(
-            namespace=cast(str, event.get("log_namespace", "-")),
-            level=levelName,
-        )
-    else:
-        try:
+            system = "{namespace}#{level}".format(
+                namespace=cast(str, event.get("log_namespace", "-")),
+                level=levelName,
+            )
+        else:
             system = str(system)
-        except Exception:
-            system = "UNFORMATTABLE"
+    except BaseException:
+        system = "UNFORMATTABLE"
     return system
 
 
@@ -408,7 +408,14 @@ def eventAsText(
 
     timeStamp = ""
     if includeTimestamp:
-        timeStamp = "".join([formatTime(cast(float, event.get("log_time", None))), " "])
+        try:
+            timeStamp = "".join(
+                [formatTime(cast(float, event.get("log_time", None))), " "]
+            )
+        except BaseException:
+            # An event's time is whatever its emitter put there; like the rest
+            # of the event it must not be able to break formatting.
+            timeStamp = "UNFORMATTABLE "
 
     system = ""
     if includeSystem:
